@@ -118,10 +118,17 @@ fn apply_op(s: &mut Stream, tree: &mut T) -> &'static str {
             };
             let total = tree.num_nodes();
             let at = s.below(total);
-            let variant = s.below(6);
+            let variant = s.below(7);
             if let Some(target) = tree.node_mut(at) {
                 let mut w = first.clone();
                 let label = match variant {
+                    6 => {
+                        // an extra outcome so unlikely that the shared prefix normalises to the
+                        // very same probabilities
+                        let least = w.iter().copied().fold(f64::INFINITY, f64::min);
+                        w.push(least * 1e-18);
+                        "shared-chance-label-other-arity-negligible-extra"
+                    }
                     0 => {
                         w[0] *= 1.5;
                         "shared-chance-label-other-weights"
